@@ -527,6 +527,38 @@ func c05(c *Ctx) {
 			c.R.Unknown(load.FuncName(cr)+": Available", c.pos(cr.Pos()), "expected one Sync call and a SetConditions(Available())")
 		}
 	}
+
+	c.R.Rule("R5.8", "the default readiness of a composed resource is the conjunction of its checks", 1,
+		"a composed resource with one failing readiness check would be counted ready, and the XR Ready although a desired resource is not")
+	if ir := c.fn(pkgComposite, "IsReady"); ir != nil {
+		n := 0
+		for _, x := range cfgx.Calls(ir, nil) {
+			if !strings.HasSuffix(cfgx.CalleeName(x), "ReadinessCheck).IsReady") {
+				continue
+			}
+			n++
+			ok := cfgx.TupleResult(x, 0)
+			if ok == nil {
+				c.R.Bad(site(x)+" verdict", c.pos(x.Pos()), "the verdict of a readiness check is discarded")
+				continue
+			}
+			_, fa := cfgx.CondEdges(ok)
+			if len(fa) == 0 {
+				c.R.Bad(site(x)+" verdict", c.pos(x.Pos()), "the verdict of a readiness check is not tested: a later check can overrule a failing one")
+				continue
+			}
+			bad := ""
+			for _, r := range cfgx.BoolReturnsFrom(fa, 0) {
+				if !r.Nil {
+					bad = c.pos(r.At.Pos())
+				}
+			}
+			c.R.Check(bad == "", site(x)+" verdict", c.pos(x.Pos()), "once a check reports not-ready every return reports not-ready", "after a check reported not-ready the function can still report ready (return at "+bad+")")
+		}
+		if n == 0 {
+			c.R.Unknown(load.FuncName(ir)+": checks", c.pos(ir.Pos()), "no ReadinessCheck.IsReady call found")
+		}
+	}
 }
 
 func isBoolMap(t types.Type) bool {
